@@ -2,7 +2,10 @@ package props
 
 import (
 	"context"
+	"crypto/rsa"
+	"crypto/x509"
 	"encoding/json"
+	"encoding/pem"
 	"fmt"
 	"net/http"
 	"net/http/httptest"
@@ -18,6 +21,7 @@ import (
 	"golang.org/x/oauth2"
 
 	"github.com/zitadel/oidc/v3/pkg/client"
+	"github.com/zitadel/oidc/v3/pkg/client/profile"
 	"github.com/zitadel/oidc/v3/pkg/client/rp"
 	"github.com/zitadel/oidc/v3/pkg/client/rs"
 	httphelper "github.com/zitadel/oidc/v3/pkg/http"
@@ -83,9 +87,11 @@ func (g globalsSnapshot) diff() string {
 }
 
 type c20 struct {
-	w    *world.World
-	o    *kernel.Outcome
-	step int
+	w       *world.World
+	o       *kernel.Outcome
+	step    int
+	sib     map[string]any // sibling client-side instances by "<kind>/<own credential>"
+	sibKeys map[string]jose.JSONWebKey
 }
 
 func (c *c20) viol(rule, site, format string, a ...any) {
@@ -173,7 +179,7 @@ func (c *c20) isolation(tape *kernel.Tape, n int) {
 	steps(c.o, tape, n, func(i int, ch *kernel.Chooser) string {
 		c.step = i
 		var desc string
-		switch ch.Int(15) {
+		switch ch.Int(17) {
 		case 14: // idempotent requests served concurrently answer exactly what they answer alone
 			tok := "no-token"
 			if sess != nil && sess.tokens != nil {
@@ -377,6 +383,8 @@ func (c *c20) isolation(tape *kernel.Tape, n int) {
 		case 7:
 			_, err := rs.NewResourceServerClientCredentials(ctx, w.Issuer, "web", "secret-web", rs.WithClient(hc))
 			desc = fmt.Sprintf("rs.NewResourceServerClientCredentials (%v)", err)
+		case 8, 15, 16: // sibling client-side instances: same client id and issuer, each configured with its own credentials
+			desc = c.siblings(ch, hc)
 		default:
 			_, err := rp.NewRelyingPartyOIDC(ctx, w.Issuer, "pub", "", "https://pub.sim/callback", []string{"openid"}, rp.WithHTTPClient(hc), rp.WithLogger(world.Discard))
 			desc = fmt.Sprintf("construct another relying party (%v)", err)
@@ -426,6 +434,90 @@ func (c *c20) isolation(tape *kernel.Tape, n int) {
 		return desc
 	})
 	world.RestoreDefaultEndpoints()
+}
+
+// siblings: several client-side instances in one process act for the same client id at the same issuer, each
+// configured with its own credentials (a key that was rolled, a secret of another environment). Every request an
+// instance sends must carry the credentials that instance was given - whatever its siblings did before.
+func (c *c20) siblings(ch *kernel.Chooser, hc *http.Client) string {
+	w := c.w
+	ctx := context.Background()
+	pemOf := func(k jose.JSONWebKey) []byte {
+		rk, ok := k.Key.(*rsa.PrivateKey)
+		if !ok {
+			return nil
+		}
+		return pem.EncodeToMemory(&pem.Block{Type: "RSA PRIVATE KEY", Bytes: x509.MarshalPKCS1PrivateKey(rk)})
+	}
+	if c.sib == nil {
+		c.sib = map[string]any{}
+		c.sibKeys = map[string]jose.JSONWebKey{"jwt-key-1": w.ClientKeys["jwt"], "jwt-key-2": world.FixtureKey("rsa", 4)}
+		for _, kid := range []string{"jwt-key-1", "jwt-key-2"} {
+			if r, err := rs.NewResourceServerJWTProfile(ctx, w.Issuer, "jwt", kid, pemOf(c.sibKeys[kid]), rs.WithClient(hc)); err == nil {
+				c.sib["rs/"+kid] = r
+			}
+			if ts, err := profile.NewJWTProfileTokenSource(ctx, w.Issuer, "jwt", kid, pemOf(c.sibKeys[kid]), []string{"openid"}, profile.WithHTTPClient(hc)); err == nil {
+				c.sib["profile/"+kid] = ts
+			}
+		}
+		for _, sec := range []string{"secret-web", "secret-of-staging"} {
+			if r, err := rs.NewResourceServerClientCredentials(ctx, w.Issuer, "web", sec, rs.WithClient(hc)); err == nil {
+				c.sib["rs-secret/"+sec] = r
+			}
+		}
+	}
+	names := kernel.SortedKeys(c.sib)
+	if len(names) == 0 {
+		return "siblings: none could be built"
+	}
+	var done []string
+	for n := 0; n < 2+ch.Int(2); n++ {
+		name := names[ch.Int(len(names))]
+		first := w.Net.Len()
+		switch inst := c.sib[name].(type) {
+		case rs.ResourceServer:
+			rs.Introspect[*oidc.IntrospectionResponse](ctx, inst, "some-token")
+		case profile.TokenSource:
+			inst.TokenCtx(ctx)
+		}
+		own := name[strings.IndexByte(name, '/')+1:]
+		for _, ex := range w.Net.Since(first) {
+			if ex.Path != "/oauth/introspect" && ex.Path != "/oauth/token" {
+				continue
+			}
+			c.o.Probe("requests-of-sibling-instances-checked")
+			f := ex.Form()
+			if strings.HasPrefix(name, "rs-secret/") {
+				if _, pw, ok := (&http.Request{Header: ex.ReqHeader}).BasicAuth(); ok {
+					if un, err := url.QueryUnescape(pw); err == nil {
+						pw = un
+					}
+					if pw != own {
+						c.viol("instance-not-isolated", "rs.ResourceServer/client-secret", "a resource server configured with secret %q sent secret %q (after %v)", own, pw, done)
+					}
+				}
+				continue
+			}
+			a := f.Get("client_assertion")
+			if a == "" {
+				a = f.Get("assertion")
+			}
+			if a == "" {
+				continue
+			}
+			sig, err := jose.ParseSigned(a, []jose.SignatureAlgorithm{jose.RS256})
+			if err != nil {
+				continue
+			}
+			ownKey := c.sibKeys[own]
+			pub := ownKey.Public()
+			if _, verr := sig.Verify(&pub); verr != nil || world.JWTHeader(a)["kid"] != own {
+				c.viol("instance-not-isolated", strings.SplitN(name, "/", 2)[0]+"/client-assertion", "the instance configured with key %s sent an assertion with kid %v that its own key does not verify (after %v)", own, world.JWTHeader(a)["kid"], done)
+			}
+		}
+		done = append(done, name)
+	}
+	return fmt.Sprintf("sibling instances used: %v", done)
 }
 
 func issuerOf(fp string) string {
